@@ -262,6 +262,15 @@ Assumed('wpull/warc/format.py', 'WARCRecord.__init__', {'self': TObj('WARCRecord
 Assumed('wpull/warc/format.py', 'WARCRecord.set_common_fields', {'self': TObj('WARCRecord'), 'warc_type': TStr(), 'content_type': TStr()}, modifies=['self.fields.map', 'self.fields.count'], raises={},
         note='type, content type, date and record id fields (uuid, clock): not examined here')
 declare_class('HTTPRequest', {'address': TTuple(TStr(), TInt()), 'url_info': TObj('URLInfo')})
+Assumed(RC, 'BaseWARCRecorderSession._new_temp_file', dict(HS, hint=TStr()), name='HTTPWARCRecorderSession._new_temp_file', ret=TObj('BlockFile'), defaults={'hint': 'warcrecsess'},
+        ensures=['result.content == b""', 'result.pos == 0'], raises={'OSError': []}, note='tempfile.NamedTemporaryFile / gzip-free temp file opened w+b: empty, at position 0')
+Contract(RC, 'HTTPWARCRecorderSession.begin_request', dict(HS, request=TObj('HTTPRequest')), prop='C04',
+    modifies=['self._request', 'self._request_record'],
+    ensures=[('request-record-ready-for-request_data', 'self._request_record is not None and self._request_record.block_file is not None and '
+              'self._request_record.block_file.content == b"" and self._request_record.block_file.pos == 0'),
+             ('request-kept', 'self._request is request')],
+    raises={'AssertionError': [], 'OSError': []},
+    note='the state begin_request leaves is the precondition of request_data / end_request (position at the end of an empty block)')
 Contract(RC, 'HTTPWARCRecorderSession.begin_response', dict(HS, response=TObj('HTTPResponse')), prop='C05',
     names={'HTTPResponse.to_bytes': 'HTTPResponse.to_bytes@len'},
     requires=['self._request is not None', 'self._request_record is not None', 'self._response_temp_file.pos == len(self._response_temp_file.content)'],
